@@ -82,6 +82,10 @@ CHECKS = {
          "Exploration under the race detector: 7 fixed snippets x G in {2..32} x {own root, child of a shared parent} x cache {off (the same *Template and Clones), cold, warm}, plus random all-construct templates, concurrent Parse/Render of equal and different texts, and random Set/Value/Has/New/Exec mixes on one shared context; any race report is a violation and every concurrent result must equal the sequential one.",
          "Schedules are not controlled or enumerated: 'no race and no divergence in the executions that happened'. A logic race between two individually synchronised operations is caught only if it changes an output. Shared context data is read-only.",
          "DESIGN.md §4 C14"),
+ "C11": ("reflection-driven enumeration of all type-graph walks up to 4 steps (+ a deep indexed sub-space) and rapid walks to 7+ steps over self-describing data graphs; differential against a reflection walk of the same path (exact / clean failure / wrong value or panic)",
+         "Exploration: every path of <=4 steps (quick: <=3 and every 5th of 4) over a Root/Mid/Leaf type family with value and pointer fields, nil pointers, slices, arrays, string- and int-keyed maps, interface fields, value/pointer methods, each used as emit, emit twice, let at every cut, for at every index step, with literal and variable indexes, plus deliberately broken paths; every leaf string spells its own Go path, so a completable path must render exactly that spelling and a broken one must fail cleanly - never another element's value, never a panic.",
+         "Go reflection navigation is the reference; pointer-receiver methods on unaddressable values, string indexing and paths ending at a struct are unspecified and not asserted.",
+         "DESIGN.md §4 C11"),
 }
 
 NOT_BUILT = "check not built yet in this session (see DESIGN.md §4 for its plan); will be claimed once its check is committed"
